@@ -25,6 +25,7 @@ pub fn sem_cfg() -> GenCfg {
         only_null: true,
         inter_nullable: false,
         inter_lists: true,
+        inter_indexed: true,
     }
 }
 
@@ -380,7 +381,7 @@ pub fn pair_feature(env: &Env, a: &D, b: &D) -> Option<&'static str> {
         d.any_node(&mut |n| {
             match n {
                 D::Object { index: Some(ix), .. } => {
-                    let mut en = Enumerator { env, vocab: &vocab, cap: 20, complete: true, budget: 300 };
+                    let mut en = Enumerator { env, vocab: &vocab, cap: 400, complete: true, budget: 8000 };
                     if en.values(ix, 2).is_empty() {
                         uninhabited_index = true;
                     }
@@ -388,7 +389,7 @@ pub fn pair_feature(env: &Env, a: &D, b: &D) -> Option<&'static str> {
                 // Map<K, never> / Set<never> have the same shape: a container over an uninhabited type still has
                 // its empty instance
                 D::Map(_, x) | D::Set(x) => {
-                    let mut en = Enumerator { env, vocab: &vocab, cap: 20, complete: true, budget: 300 };
+                    let mut en = Enumerator { env, vocab: &vocab, cap: 400, complete: true, budget: 8000 };
                     if en.values(x, 2).is_empty() && en.budget > 0 {
                         uninhabited_index = true;
                     }
@@ -397,8 +398,17 @@ pub fn pair_feature(env: &Env, a: &D, b: &D) -> Option<&'static str> {
                     if ms.iter().filter(|m| matches!(r.head(m), D::Map(_, _))).count() >= 2 {
                         union_of_maps = true;
                     }
-                    let empties = ms.iter().filter(|m| matches!(r.head(m), D::Object { props, index: None } if props.is_empty())).count();
-                    let objects = ms.iter().filter(|m| matches!(r.head(m), D::Object { .. } | D::Inter(_))).count();
+                    // members seen through aliases and nested unions
+                    fn flat<'x>(r: &'x Ref<'x>, d: &'x D, out: &mut Vec<&'x D>, depth: usize) {
+                        match r.head(d) {
+                            D::Union(inner) if depth < 6 => inner.iter().for_each(|m| flat(r, m, out, depth + 1)),
+                            other => out.push(other),
+                        }
+                    }
+                    let mut fm: Vec<&D> = vec![];
+                    ms.iter().for_each(|m| flat(&r, m, &mut fm, 0));
+                    let empties = fm.iter().filter(|m| matches!(m, D::Object { props, index: None } if props.is_empty())).count();
+                    let objects = fm.iter().filter(|m| matches!(m, D::Object { .. } | D::Inter(_))).count();
                     if empties >= 1 && objects >= 2 {
                         empty_object_in_union = true;
                     }
@@ -407,7 +417,7 @@ pub fn pair_feature(env: &Env, a: &D, b: &D) -> Option<&'static str> {
                     if ms.iter().any(|m| matches!(r.head(m), D::Object { index: Some(_), .. })) {
                         inter_with_index = true;
                     }
-                    let mut en = Enumerator { env, vocab: &vocab, cap: 20, complete: true, budget: 300 };
+                    let mut en = Enumerator { env, vocab: &vocab, cap: 400, complete: true, budget: 8000 };
                     if en.values(n, 2).is_empty() && en.budget > 0 {
                         uninhabited_inter = true;
                     }
@@ -930,7 +940,50 @@ pub struct C07Case {
 }
 
 pub fn c07_cfg() -> GenCfg {
-    GenCfg { formats: false, templates: false, any: false, max_depth: 3, max_defs: 2, inter_nullable: false, ..GenCfg::default() }
+    GenCfg { formats: false, templates: false, any: true, max_depth: 3, max_defs: 2, inter_nullable: false, ..GenCfg::default() }
+}
+
+/// T[K] for the shapes whose TypeScript meaning is beyond doubt: an object declaring K; an intersection of such objects
+/// (intersection of the property types); a union of such objects (union of the property types, plus undefined where the
+/// property is optional)
+pub fn indexed_expectation(env: &Env, x: &D, y: &D) -> Option<D> {
+    let k = match y {
+        D::StrLit(k) => k,
+        _ => return None,
+    };
+    let r = Ref::new(env, Mode::Open);
+    let prop_of = |d: &D| -> Option<(D, bool)> {
+        match r.head(d) {
+            D::Object { props, index: None } => props.iter().find(|p| p.key == *k).map(|p| (p.ty.clone(), p.optional)),
+            _ => None,
+        }
+    };
+    match r.head(x) {
+        D::Object { .. } => prop_of(x).and_then(|(t, opt)| if opt { None } else { Some(t) }),
+        D::Inter(ms) => {
+            let ps: Option<Vec<(D, bool)>> = ms.iter().map(|m| prop_of(m)).collect();
+            let ps = ps?;
+            if ps.iter().any(|p| p.1) {
+                return None;
+            }
+            Some(D::Inter(ps.into_iter().map(|p| p.0).collect()))
+        }
+        D::Union(ms) => {
+            let ps: Option<Vec<(D, bool)>> = ms.iter().map(|m| prop_of(m)).collect();
+            let ps = ps?;
+            let mut out: Vec<D> = vec![];
+            let mut any_opt = false;
+            for (t, o) in ps {
+                any_opt |= o;
+                out.push(t);
+            }
+            if any_opt {
+                out.push(D::Undefined);
+            }
+            Some(D::Union(out))
+        }
+        _ => None,
+    }
 }
 
 pub struct C07;
@@ -973,7 +1026,35 @@ impl Check for C07 {
             let extra2 = crate::den::gen_type(s, &cfg, env.defs.len(), 1);
             x = D::Union(vec![x, extra, extra2]);
         }
+        // indexed access over an intersection / a union of object types that all declare the key, with different
+        // (overlapping) property types: the semantic path of T[K]
+        let mut indexed_key: Option<String> = None;
+        if op == "indexed" && s.chance(1, 2) {
+            let k = s.pick(&crate::den::KEYS).to_string();
+            let leaf = |s: &mut Src| match s.below(6) {
+                0 => D::Union(vec![D::Str, D::Num]),
+                1 => D::Union(vec![D::Str, D::Bool]),
+                2 => D::Union(vec![D::StrLit("a".into()), D::StrLit("b".into())]),
+                3 => D::Union(vec![D::StrLit("b".into()), D::StrLit("c".into()), D::Num]),
+                4 => D::Str,
+                _ => D::Array(Box::new(D::Str)),
+            };
+            let n = s.range(2, 3);
+            let as_union = s.chance(1, 2);
+            let mut members = vec![];
+            for i in 0..n {
+                let other_key = ["zz", "yy", "xx"][i].to_string();
+                let mut props = vec![Prop { key: k.clone(), ty: leaf(s), optional: as_union && s.chance(1, 4) }];
+                if s.chance(1, 2) {
+                    props.push(Prop { key: other_key, ty: D::Num, optional: false });
+                }
+                members.push(D::Object { props, index: None });
+            }
+            x = if as_union { D::Union(members) } else { D::Inter(members) };
+            indexed_key = Some(k);
+        }
         let y = match (op.as_str(), &x) {
+            ("indexed", _) if indexed_key.is_some() => D::StrLit(indexed_key.clone().unwrap()),
             ("diff", D::Union(ms)) if s.chance(2, 3) => {
                 // remove one or two whole members
                 let i = s.below(ms.len());
@@ -1003,13 +1084,20 @@ impl Check for C07 {
                 }
             }
         }
+        if let Some(exp) = indexed_expectation(&env, &x, &y) {
+            for (v, _) in crate::c01::gen_values(&env, &exp, s, Mode::Open, 6, 4, 2) {
+                if in_sem_universe(&v) && !values.contains(&v) {
+                    values.push(v);
+                }
+            }
+        }
         if op == "keyof" {
             for k in crate::den::KEYS {
                 values.push(JsVal::str(k));
             }
             values.push(JsVal::num("0"));
         }
-        let source_level = s.chance(1, 3);
+        let source_level = s.chance(1, 3) || indexed_key.is_some();
         serde_json::to_value(C07Case { env, x, y, op, values, source_level }).unwrap()
     }
     fn exec(&self, case: &Value, ctx: &mut Ctx) -> Outcome {
@@ -1125,7 +1213,8 @@ impl C07 {
         let (expr_kind, roots): (&str, Vec<(String, D)>) = match case.op.as_str() {
             "diff" => {
                 // `void` is not a set of values in TypeScript: Exclude over it is not judged
-                let has_void = |d: &D| d.any_node(&mut |n| matches!(n, D::Void));
+                // ... and neither is `any` (TypeScript: any | T is any, and Exclude over any is any): not judged
+                let has_void = |d: &D| d.any_node(&mut |n| matches!(n, D::Void | D::Any));
                 if has_void(&case.x) || has_void(&case.y) || case.env.defs.iter().any(|(_, d)| has_void(d)) {
                     return;
                 }
@@ -1135,9 +1224,9 @@ impl C07 {
                 D::Object { index: None, props } if !props.is_empty() => ("keyof", vec![("X".into(), case.x.clone())]),
                 _ => return,
             },
-            "indexed" => match (r.head(&case.x), &case.y) {
-                (D::Object { index: None, props }, D::StrLit(k)) if props.iter().any(|p| p.key == *k && !p.optional) => ("indexed", vec![("X".into(), case.x.clone())]),
-                _ => return,
+            "indexed" => match indexed_expectation(&case.env, &case.x, &case.y) {
+                Some(_) => ("indexed", vec![("X".into(), case.x.clone())]),
+                None => return,
             },
             _ => return,
         };
@@ -1350,12 +1439,9 @@ impl C07 {
                     D::Object { props, .. } => Tri::from_bool(matches!(v, JsVal::Str(s) if props.iter().any(|p| p.key == *s))),
                     _ => continue,
                 },
-                _ => match (r.head(&case.x), &case.y) {
-                    (D::Object { props, .. }, D::StrLit(k)) => match props.iter().find(|p| p.key == *k) {
-                        Some(p) => r.member(&p.ty, v),
-                        None => continue,
-                    },
-                    _ => continue,
+                _ => match indexed_expectation(&case.env, &case.x, &case.y) {
+                    Some(exp) => r.member(&exp, v),
+                    None => continue,
                 },
             };
             if expected == Tri::Unspec {
